@@ -185,6 +185,7 @@ def read_lammps(f: Any, ndim: int) -> SingleSnapshot:
                 particle_type[atom_index] = int(item[1])
                 positions[atom_index] = [
                     float(j) for j in item[2: ndim + 2]] * boxlength
+            positions += boxbounds[:, 0]
 
         snapshot = SingleSnapshot(
             timestep=timestep,
